@@ -111,9 +111,9 @@ def shrink(drv, cops, tree, sep, spacing, assign, rng, max_runs=120, lang='en'):
 
 
 def small_trees():
-    """All trees with <= 3 leaves over an 11-literal alphabet, and all double sign prefixes."""
+    """All trees with <= 3 leaves over a 13-literal alphabet, and all double sign prefixes."""
     lits = [('lit', '0', ''), ('lit', '1', ''), ('lit', '2', ''), ('lit', '3', ''), ('lit', '7', ''), ('lit', '0.5', ''),
-            ('slit', '-', '2', ''), ('lit', '10', ''), ('lit', '1.25', ''), ('slit', '-', '2', 'M'), ('lit', '0', 'G')]
+            ('slit', '-', '2', ''), ('lit', '10', ''), ('lit', '1.25', ''), ('slit', '-', '2', 'M'), ('lit', '0', 'G'), ('lit', '1', 'Y'), ('lit', '9', 'Z')]
     ops = '+-*/'
     for a in lits:
         yield a
